@@ -427,6 +427,7 @@ func (w *World) chooseN(n int, label string) int {
 		w.run.dbgLog = append(w.run.dbgLog, fmt.Sprintf("choose %s of %d input#%d:%s", label, n, len(w.run.inputs), desc))
 	}
 	t := w.newInput(fmt.Sprintf("%s_of%d", label, n), 8)
+	w.run.inputs[len(w.run.inputs)-1].Env = true // scheduler / select / map-order choices are not read from the native vector
 	w.assume(fromTerm(w.tt.Cmp(OpUlt, t, w.tt.Const(uint64(n), 8))))
 	k := int(w.concretize(t, n+1))
 	if k >= n {
